@@ -10,9 +10,9 @@ package main
 //                  data-centre partition of the node set)
 //   -mode rand     seeded topologies up to 40 nodes / 4 data centres / 64 partitions / R<=5
 //                  with random up/down walks
-//   -mode isolate  the trigger of known finding place-v2-empty-candidates on purpose:
-//                  previous layouts whose replica lists are longer than R (replication
-//                  factor lowered; a balance move in flight) followed by a node loss
+//   -mode isolate  previous layouts whose replica lists are longer than R (replication
+//                  factor lowered; a balance move in flight) followed by a node loss - the
+//                  trigger of finding place-v2-empty-candidates (fixed by ea2d1b6)
 // Every call is executed three times (again; and with the input map built in another
 // order) and logged with all three results.  The driver never judges: spec/ZPlaceTrace.tla
 // evaluates the contract of spec/ZPlace.tla on every line.
@@ -143,7 +143,7 @@ func (d *placeDrv) reset(info string) {
 	d.cur.Emit(trace.M{"ev": "reset", "seg": d.seg, "info": info})
 }
 
-func evenly(t *placeTopo, live []int) (bool, int) {
+func plEvenly(t *placeTopo, live []int) (bool, int) {
 	cnt := map[int]int{}
 	for _, i := range live {
 		cnt[t.dc[i-1]]++
@@ -185,7 +185,7 @@ func (d *placeDrv) call(t *placeTopo, algo, ns string, P, R int, live []int, old
 		"msg": r1.msg})
 	d.calls++
 	d.byRes[r1.res]++
-	ev, ndc := evenly(t, live)
+	ev, ndc := plEvenly(t, live)
 	if len(old) == 0 && ev && ndc >= R && R >= 2 && n >= R {
 		d.spread++
 	}
@@ -207,7 +207,7 @@ func (d *placeDrv) call(t *placeTopo, algo, ns string, P, R int, live []int, old
 	return r1
 }
 
-func without(live []int, x int) []int {
+func plWithout(live []int, x int) []int {
 	out := make([]int, 0, len(live))
 	for _, v := range live {
 		if v != x {
@@ -217,13 +217,13 @@ func without(live []int, x int) []int {
 	return out
 }
 
-func with(live []int, x int) []int {
+func plWith(live []int, x int) []int {
 	out := append(append([]int{}, live...), x)
 	sort.Ints(out)
 	return out
 }
 
-func contains(live []int, x int) bool {
+func plHas(live []int, x int) bool {
 	for _, v := range live {
 		if v == x {
 			return true
@@ -240,10 +240,10 @@ func (d *placeDrv) history(t *placeTopo, ns string, P, R int, live []int, old []
 	}
 	for x := 1; x <= t.n; x++ {
 		var nl []int
-		if contains(live, x) {
-			nl = without(live, x)
+		if plHas(live, x) {
+			nl = plWithout(live, x)
 		} else {
-			nl = with(live, x)
+			nl = plWith(live, x)
 		}
 		r := d.call(t, "v2", ns, P, R, nl, old)
 		next := old
@@ -256,7 +256,7 @@ func (d *placeDrv) history(t *placeTopo, ns string, P, R int, live []int, old []
 
 // allAssignments: every function nodes -> 1..maxdc; canonical = restricted growth strings
 // (one representative per partition of the node set into data centres).
-func allAssignments(n, maxdc int, canonical bool) [][]int {
+func plAssignments(n, maxdc int, canonical bool) [][]int {
 	var out [][]int
 	cur := make([]int, n)
 	var rec func(i, used int)
@@ -282,7 +282,7 @@ func allAssignments(n, maxdc int, canonical bool) [][]int {
 	return out
 }
 
-func seqInts(n int) []int {
+func plSeq(n int) []int {
 	out := make([]int, n)
 	for i := range out {
 		out[i] = i + 1
@@ -290,7 +290,7 @@ func seqInts(n int) []int {
 	return out
 }
 
-func isCanonical(dc []int) bool {
+func plCanonical(dc []int) bool {
 	used := 0
 	for _, d := range dc {
 		if d > used+1 {
@@ -337,10 +337,10 @@ func placesim(args []string) error {
 	switch *mode {
 	case "enum":
 		for n := 1; n <= *maxn; n++ {
-			for _, dc := range allAssignments(n, *maxdc, false) {
+			for _, dc := range plAssignments(n, *maxdc, false) {
 				topos++
 				t := newPlaceTopo(dc, 0)
-				canon := isCanonical(dc)
+				canon := plCanonical(dc)
 				for _, ns := range names {
 					for R := 1; R <= *maxr; R++ {
 						// work units are dealt to the shards separately for cheap (fresh only)
@@ -356,7 +356,7 @@ func placesim(args []string) error {
 						d.reset(fmt.Sprintf("n=%d dc=%v ns=%s R=%d", n, dc, ns, R))
 						for P := 1; P <= *maxp; P++ {
 							for _, algo := range []string{"v1", "v2"} {
-								d.call(t, algo, ns, P, R, seqInts(n), nil)
+								d.call(t, algo, ns, P, R, plSeq(n), nil)
 							}
 						}
 						if !canon || *hist <= 0 {
@@ -364,7 +364,7 @@ func placesim(args []string) error {
 						}
 						for P := 1; P <= *maxp; P++ {
 							d.reset(fmt.Sprintf("history n=%d dc=%v ns=%s R=%d P=%d", n, dc, ns, R, P))
-							r := d.call(t, "v2", ns, P, R, seqInts(n), nil)
+							r := d.call(t, "v2", ns, P, R, plSeq(n), nil)
 							var old [][]int
 							if r.res == "ok" {
 								old = r.out
@@ -373,7 +373,7 @@ func placesim(args []string) error {
 							if *histn > 0 && n > *histn {
 								h--
 							}
-							d.history(t, ns, P, R, seqInts(n), old, h)
+							d.history(t, ns, P, R, plSeq(n), old, h)
 						}
 					}
 				}
@@ -406,10 +406,10 @@ func placesim(args []string) error {
 			ns := fmt.Sprintf("ns%d", d.rng.Intn(1000))
 			d.reset(fmt.Sprintf("rand n=%d D=%d P=%d R=%d", n, D, P, R))
 			// some nodes may join later
-			live := seqInts(n)
+			live := plSeq(n)
 			if d.rng.Intn(2) == 0 && n > 1 {
 				for j := d.rng.Intn(1 + n/3); j > 0; j-- {
-					live = without(live, 1+d.rng.Intn(n))
+					live = plWithout(live, 1+d.rng.Intn(n))
 				}
 			}
 			d.call(t, "v1", ns, P, R, live, nil)
@@ -420,10 +420,10 @@ func placesim(args []string) error {
 			}
 			for step := d.rng.Intn(7); step > 0; step-- {
 				x := 1 + d.rng.Intn(n)
-				if contains(live, x) {
-					live = without(live, x)
+				if plHas(live, x) {
+					live = plWithout(live, x)
 				} else {
-					live = with(live, x)
+					live = plWith(live, x)
 				}
 				r := d.call(t, "v2", ns, P, R, live, old)
 				if r.res == "ok" {
@@ -436,35 +436,35 @@ func placesim(args []string) error {
 		}
 	case "isolate":
 		for n := 2; n <= *maxn; n++ {
-			for _, dc := range allAssignments(n, *maxdc, true) {
+			for _, dc := range plAssignments(n, *maxdc, true) {
 				topos++
 				t := newPlaceTopo(dc, 0)
 				ns := names[0]
 				for R := 2; R <= *maxr+1 && R <= n; R++ {
 					for P := 1; P <= 3; P++ {
 						d.reset(fmt.Sprintf("isolate n=%d dc=%v R=%d->%d P=%d", n, dc, R, R-1, P))
-						r := d.call(t, "v2", ns, P, R, seqInts(n), nil)
+						r := d.call(t, "v2", ns, P, R, plSeq(n), nil)
 						if r.res != "ok" {
 							continue
 						}
 						// (i) the replication factor is lowered by one (ChangeNamespaceMetaParam),
 						// the old replica lists still have R entries; then one node is lost
-						d.call(t, "v2", ns, P, R-1, seqInts(n), r.out)
+						d.call(t, "v2", ns, P, R-1, plSeq(n), r.out)
 						for x := 1; x <= n; x++ {
-							d.call(t, "v2", ns, P, R-1, without(seqInts(n), x), r.out)
+							d.call(t, "v2", ns, P, R-1, plWithout(plSeq(n), x), r.out)
 						}
 						// (ii) a balance move is in flight: one partition has R+1 replicas
 						// (the new one appended, the old one not yet removed); then a node is lost
 						if R <= *maxr {
 							for y := 1; y <= n; y++ {
-								if contains(r.out[0], y) {
+								if plHas(r.out[0], y) {
 									continue
 								}
 								o := make([][]int, len(r.out))
 								copy(o, r.out)
 								o[0] = append(append([]int{}, r.out[0]...), y)
 								for x := 1; x <= n; x++ {
-									d.call(t, "v2", ns, P, R, without(seqInts(n), x), o)
+									d.call(t, "v2", ns, P, R, plWithout(plSeq(n), x), o)
 								}
 								break
 							}
